@@ -101,6 +101,7 @@ def run_params(case):
         n_tx0, n_rx0, n_log0 = len(link.tx), len(link.rx_log), len(dev.param_log)
         put0 = len(cf.param.param_updater.request_queue.put_log)
         calls = {'param': [], 'group': [], 'all': []}
+        stale_in_cb = []
         box_cb = {}
         names = ['%s.%s' % (p['group'], p['name']) for p in toc]
         for i, p in enumerate(toc):
@@ -112,7 +113,16 @@ def run_params(case):
                         cf.param.remove_update_callback(group=p['group'], name=p['name'], cb=box_cb[(p['group'], p['name'])])
                 box_cb[(p['group'], p['name'])] = once
                 cf.param.add_update_callback(group=p['group'], name=p['name'], cb=once)
-            cf.param.add_update_callback(group=p['group'], name=p['name'], cb=lambda n, v: calls['param'].append((s.now, n, v)))
+            def per_param(n, v):
+                calls['param'].append((s.now, n, v))
+                # a listener that looks the value up instead of using its argument sees the value it is being told about
+                try:
+                    cached = cf.param.get_value(n)
+                except Exception as e:  # noqa
+                    cached = repr(e)
+                if cached != v:
+                    stale_in_cb.append((s.now, n, v, cached))
+            cf.param.add_update_callback(group=p['group'], name=p['name'], cb=per_param)
         for g in sorted(set(p['group'] for p in toc)):
             cf.param.add_update_callback(group=g, name=None, cb=lambda n, v: calls['group'].append((s.now, n, v)))
         cf.param.add_update_callback(cb=lambda n, v: calls['all'].append((s.now, n, v)))
@@ -382,6 +392,9 @@ def run_params(case):
                 out.fail('param:get-raised', '%s: get_value(%s) raised %r' % (desc, r['name'], r['raised']))
         cf.close_link()
         s.sleep(2.0)
+    if stale_in_cb:
+        t_, n_, v_, c_ = stale_in_cb[0]
+        out.fail('param:cache-behind-notification', '%s: listener of %s notified of %r at %.4f, get_value() inside it returned %r' % (desc, n_, v_, t_, c_))
     issuing = len([t for t in case['threads'] if t])
     out.nontrivial = issuing >= 2 or max_outstanding_misc[0] >= 3 or boundary or any(_is_boundary(toc, r) for r in results if r['op'] == 'set')
     out.feat('threads-%d' % issuing, 'v%d' % version, 'link-needs-resending' if resending else 'reliable-link', 'misc-outstanding-%d' % min(max_outstanding_misc[0], 3),
